@@ -413,6 +413,21 @@ def framing(out, root):
     return (kind, payload)
 
 
+def drawn(L, inst, method):
+    """What draw(method=...) writes (no padding), captured from a virtual non-tty stdout."""
+    out = world.VStdout(None, isatty=False)
+    tty = world.W.tty
+    world.install(tty, out)
+    try:
+        inst.draw("<", 1, "^", 1, method=method)
+    finally:
+        sys.stdout = L.orig["stdout"]
+        L.kitty._stdout_write = L.orig["kitty_w"]
+        L.iterm2._stdout_write = L.orig["iterm2_w"]
+        world.W.stdout = None
+    return out.getvalue()
+
+
 def render_observations(col, L, prog, history, case, quick=False):
     """First visit of a state: what is actually rendered must be what the effective values dictate."""
     root = prog["root"]
@@ -437,6 +452,9 @@ def render_observations(col, L, prog, history, case, quick=False):
             obs.append(("+L", format(inst, "1.1+L"), "lines"))
             if root == "kitty":
                 obs.append(("+W", format(inst, "1.1#+W"), "whole"))
+            # per-call override through draw(method=...), which is case-insensitive too
+            for spelled, kind in (("LINES", "lines"), ("Whole", "whole")):
+                obs.append((f"draw(method={spelled!r})", drawn(L, inst, spelled), kind))
         for how, out, kind in obs:
             col.count()
             col.inc("renders")
@@ -467,7 +485,9 @@ def group_ops(prog, tier):
     ops = []
     if g in ("rm", "mixed"):
         if root == "kitty":
-            vals = ["whole", "lines"] if (quick or g == "mixed") else ["whole", "lines", "WHOLE"]
+            # set_render_method() is case-insensitive and stores the spelling given: non-lowercase spellings of
+            # LINES in particular (a mis-normalised "WHOLE" would still render whole and hide the fault)
+            vals = ["whole", "lines"] if (quick or g == "mixed") else ["whole", "lines", "LINES"]
         elif root == "iterm2":
             vals = ["whole", "lines"] if (quick or g == "mixed") else ["whole", "lines", "anim"]
         else:
@@ -484,10 +504,17 @@ def group_ops(prog, tier):
             ops.append(("rm_set", C[0], ""))
             if root == "kitty":
                 ops.append(("rm_set", C[-1], "anim"))
-                ops.append(("rm_set", I[-1], "Whole"))
-            if root == "iterm2" and quick:
+                ops.append(("rm_set", I[-1], "Lines"))
+                ops.append(("rm_set", C[-1], "LINES" if quick else "Lines"))
+                if not quick:
+                    ops.append(("rm_set", I[0], "Whole"))
+            if root == "iterm2":
                 ops.append(("rm_set", C[-1], "ANIM"))
-                ops.append(("rm_set", I[0], "anim"))
+                ops.append(("rm_set", I[0], "Anim"))
+                ops.append(("rm_set", I[-1], "LINES"))
+                if not quick:
+                    ops.append(("rm_set", C[0], "Lines"))
+                    ops.append(("rm_set", I[-1], "Whole"))
             if root == "block":
                 ops.append(("rm_set", C[-1], "lines"))
                 ops.append(("rm_set", I[-1], "lines"))
